@@ -1,6 +1,10 @@
 /-
   Codec: model of the text codec of /repo/num (as the code is NOW, i.e. after
-  fix 36384ed and after the fix that decodes quoted JSON values):
+  fix 36384ed, after the fix that decodes quoted JSON values and after the four
+  fixes of the int64 minimum and of the percentage conversions: `String` splits
+  the value before changing the sign of the parts, `AmountFromString` parses
+  the major part together with its sign, `PercentageFromAmount` and
+  `Percentage.Amount` only move the decimal point):
 
     amount.go      AmountFromString, isDigits, intPow, String, MinimalString,
                    UnmarshalText, UnmarshalJSON, jsonText
@@ -16,9 +20,9 @@
   faithful for every byte string, valid UTF-8 or not.
 
   `int64` wrap-around is modelled (`wrap64`) wherever the Go code computes on
-  `int64`: `intPow`, the `v*p + v2` of the parser (unreachable after the fix,
-  which is what `Props/C06` proves), and `v = -v` / `v - v1*p` of `String`
-  (reachable for the most negative value).  Core Lean only.
+  `int64`: `intPow`, the `v*p + v2` / `v*p - v2` of the parser and the `-v1` /
+  `-v2` of `String` (all unreachable inside the stated domain, which is what
+  `Props/C06` proves).  Core Lean only.
 -/
 import GoblVerif.Model.Num
 
@@ -129,10 +133,12 @@ def Err.name : Err → String
   | .minor => "minor" | .minorDigits => "minorDigits" | .decimals => "decimals" | .range => "range"
   | .json => "json" | .empty => "empty"
 
-/-- the unsigned part of `AmountFromString`: value and exponent of the text
-    after the optional leading '-' -/
-def parseUnsigned (u : Text) : Except Err (Int × Nat) :=
-  let x := splitOn '.' u
+/-- `AmountFromString` after `strings.Split(val, ".")`: `n` is
+    `strings.HasPrefix(val, "-")`, `x` the parts.  The major part is parsed
+    together with its sign (`ParseInt` takes one), its digits are checked
+    without it; the decimals are added to a non-negative and subtracted from a
+    negative amount, each side with its own range check. -/
+def parseParts (n : Bool) (x : List Text) : Except Err Amount :=
   if x.length > 2 then .error .separators else
   match x with
   | [] => .error .major  -- strings.Split never returns an empty slice
@@ -140,9 +146,9 @@ def parseUnsigned (u : Text) : Except Err (Int × Nat) :=
     match parseInt64 x0 with
     | .error _ => .error .major
     | .ok v =>
-      if !isDigits x0 then .error .majorDigits else
+      if !isDigits (trimPrefixMinus x0) then .error .majorDigits else
       match rest with
-      | [] => .ok (v, 0)
+      | [] => .ok ⟨v, 0⟩
       | x1 :: _ =>
         match parseInt64 x1 with
         | .error _ => .error .minor
@@ -151,31 +157,34 @@ def parseUnsigned (u : Text) : Except Err (Int × Nat) :=
           let e := x1.length
           if e > maxAmountExp then .error .decimals else
           let p := intPow 10 e
-          if v > Int.tdiv (maxInt64 - v2) p then .error .range else
-          .ok (wrap64 (wrap64 (v * p) + v2), e)
+          if n then
+            if v < Int.tdiv (wrap64 (minInt64 + v2)) p then .error .range else
+            .ok ⟨wrap64 (wrap64 (v * p) - v2), e⟩
+          else
+            if v > Int.tdiv (wrap64 (maxInt64 - v2)) p then .error .range else
+            .ok ⟨wrap64 (wrap64 (v * p) + v2), e⟩
 
 /-- `AmountFromString` -/
 def amountFromString (val : Text) : Except Err Amount :=
-  let n := hasPrefixMinus val
-  match parseUnsigned (trimPrefixMinus val) with
-  | .error e => .error e
-  | .ok (v, e) => .ok ⟨if n then wrap64 (-v) else v, e⟩
+  parseParts (hasPrefixMinus val) (splitOn '.' val)
 
 /-! ### Amount.String / MinimalString -/
 
 /-- `Amount.String` (exponents above 1000 print "NA"; for 19 ≤ exp ≤ 1000 the
     Go code works with a wrapped `intPow` and may divide by zero: outside the
-    property's domain, the driver answers `undef` there) -/
+    property's domain, the driver answers `undef` there).  The value is split
+    with Go's truncated `/` and `%` first, the sign of the two parts is changed
+    afterwards. -/
 def amountToString (a : Amount) : Text :=
   if a.exp = 0 then fmtInt a.value
   else if a.exp > 1000 then ['N', 'A']
   else
     let p := intPow 10 a.exp
     let neg := decide (a.value < 0)
-    let v := if neg then wrap64 (-a.value) else a.value
-    let v1 := Int.tdiv v p
-    let v2 := wrap64 (v - wrap64 (v1 * p))
-    (if neg then ['-'] else []) ++ fmtInt v1 ++ '.' :: fmtIntPad0 a.exp v2
+    let v1 := Int.tdiv a.value p
+    let v2 := Int.tmod a.value p
+    (if neg then ['-'] else []) ++ fmtInt (if neg then wrap64 (-v1) else v1) ++
+      '.' :: fmtIntPad0 a.exp (if neg then wrap64 (-v2) else v2)
 
 def trimRightZeros (s : Text) : Text := (s.reverse.dropWhile (· == '0')).reverse
 
@@ -341,8 +350,8 @@ def amountUnmarshalJSON (cur : Amount) (value : Text) : Except Err Amount :=
 
 /-! ### percentages -/
 
-/-- `PercentageFromString` (faithful: `PercentageFromAmount` goes through the
-    float `Rescale`/`Divide` of Num.lean) -/
+/-- `PercentageFromString` (`PercentageFromAmount` = `Pct.ofAmount` of Num.lean:
+    the same digits with two more decimals) -/
 def percentageFromString (str : Text) : Except Err Pct :=
   if str.isEmpty then .ok ⟨⟨0, 0⟩⟩ else
   let rescale := str.getLast? == some '%'
